@@ -42,10 +42,10 @@ var ruleSets = map[string]func(a *Analyzer, r *Results){
 // which rule sets each property needs
 var propSets = map[string][]string{
 	"C01": {"r3", "more", "ingest", "proof", "c06"},
-	"C02": {"r3", "c02", "c12", "c20"},
-	"C03": {"r3", "ingest", "c20", "c02"},
+	"C02": {"r3", "c02", "c12", "c20", "c06"},
+	"C03": {"r3", "ingest", "c20", "c02", "c06"},
 	"C04": {"more", "ingest", "proof"},
-	"C05": {"r3", "more", "ingest", "chan", "loops", "setters", "c19f", "c20", "registry"},
+	"C05": {"r3", "more", "ingest", "chan", "loops", "setters", "c19f", "c20", "registry", "proof"},
 	"C06": {"c06"},
 	"C07": {"r3", "more", "ingest", "proof"},
 	"C08": {"r3", "more", "ingest", "proof", "c17"},
